@@ -76,6 +76,11 @@ def dyn(t):
     return Sym("dyn", t)
 
 
+def pystr(t):
+    """str(v): the string itself for strings, an (uninterpreted, total) rendering otherwise"""
+    return z3.If(Val.is_S(t), Val.sval(t), PY_STR(t))
+
+
 class DynMixin(object):
     # ------------------------------------------------------------------ conversions
     def to_dyn(self, st, v):
@@ -157,6 +162,8 @@ class DynMixin(object):
             return z3.And(Val.is_O(t), IS_NDARRAY(Val.ref(t)))
         if n == "object":
             return z3.BoolVal(True)
+        if n == "type":
+            return Val.is_T(t)
         if cls.info is not None:
             if n == "Command" or self.class_is_subclass(cls, "Command"):
                 if n != "Command":
@@ -216,16 +223,31 @@ class DynMixin(object):
             yield r
 
     # ------------------------------------------------------------------ operators
+    def _eq_dyn(self, st, a, b):
+        """== on dynamic values. numpy arrays compare element-wise: using the result as a truth value (or comparing
+        with a sequence of another length) raises ValueError - modelled as: comparing an ndarray raises."""
+        ta, tb = self.to_dyn(st, a), self.to_dyn(st, b)
+        arr = z3.Or(z3.And(Val.is_O(ta), IS_NDARRAY(Val.ref(ta))), z3.And(Val.is_O(tb), IS_NDARRAY(Val.ref(tb))))
+        for s, isarr in self.branch(st, arr):
+            if isarr:
+                yield self.raise_(s, "ValueError", "element-wise comparison of an array used as a truth value")
+            else:
+                yield s, py_eq(ta, tb)
+
     def compare_dyn(self, st, opn, a, b):
         if opn in ("Eq", "NotEq"):
-            e = py_eq(self.to_dyn(st, a), self.to_dyn(st, b))
-            yield st, (e if opn == "Eq" else z3.Not(e))
+            for s, e in self._eq_dyn(st, a, b):
+                if isinstance(e, Raised):
+                    yield s, e
+                else:
+                    yield s, (e if opn == "Eq" else z3.Not(e))
             return
         raise Unsupported("ordering comparison on dynamic values")
 
     def equal(self, st, a, b):
         if (isinstance(a, Sym) and a.kind == "dyn") or (isinstance(b, Sym) and b.kind == "dyn"):
-            yield st, py_eq(self.to_dyn(st, a), self.to_dyn(st, b))
+            for r in self._eq_dyn(st, a, b):
+                yield r
             return
         for r in super(DynMixin, self).equal(st, a, b):
             yield r
@@ -243,6 +265,9 @@ class DynMixin(object):
 
     def dyn_attr(self, st, o, name):
         t = o.t
+        if name == "__class__":
+            yield st, dyn(CLASS_OF(t))
+            return
         for s, kind in self._split_kind(st, t):
             if kind == "S":
                 yield s, BuiltinV("str." + name, self_val=Sym("str", Val.sval(t)))
@@ -419,9 +444,7 @@ class DynMixin(object):
     # ------------------------------------------------------------------ str(): total
     def bi_str(self, st, args, kw):
         if args and isinstance(args[0], Sym) and args[0].kind == "dyn":
-            t = args[0].t
-            st.assume(z3.Implies(Val.is_S(t), PY_STR(t) == Val.sval(t)))
-            yield st, Sym("str", PY_STR(t))
+            yield st, Sym("str", pystr(args[0].t))
             return
         for r in super(DynMixin, self).bi_str(st, args, kw):
             yield r
@@ -472,7 +495,9 @@ def _symmap_methods():
             else:
                 for s2, ok in self.branch(s, VT_HASKEY(owner, k)):
                     if ok:
-                        s2.assume(VT_HASVAL(owner, VT_GET(owner, k)))
+                        # class invariant of DataTypeParameter (checked over the declaration tables): valid_types maps
+                        # names to type objects; a value looked up by key is one of values()
+                        s2.assume(z3.And(VT_HASVAL(owner, VT_GET(owner, k)), Val.is_T(VT_GET(owner, k))))
                         yield s2, dyn(VT_GET(owner, k))
                     else:
                         yield self.raise_(s2, "KeyError", "missing key")
@@ -481,8 +506,13 @@ def _symmap_methods():
         owner = o.fields["owner"]
         k = self.to_dyn(st, item)
         if o.cls.name == "SymValues":
-            # `x in d.values()` compares with == : never raises
-            yield st, VT_HASVAL(owner, k)
+            # `x in d.values()` compares with ==: an ndarray makes the comparison element-wise and its truth value raises
+            arr = z3.And(Val.is_O(k), IS_NDARRAY(Val.ref(k)))
+            for s, isarr in self.branch(st, arr):
+                if isarr:
+                    yield self.raise_(s, "ValueError", "The truth value of an array with more than one element is ambiguous")
+                else:
+                    yield s, VT_HASVAL(owner, k)
             return
         for s, h in self.branch(st, hashable(k)):
             if not h:
